@@ -186,8 +186,8 @@ theorem C15_registry_never_written :
     Gen.globalWrites.all (fun w => w.2.1 ≠ "oxxFieldHeaderMap") = true := by decide
 
 theorem C15_lookup_returns_fresh :
-    Gen.lookupShape = ["return:&MatchField{Class,Field,HasMask,Length}", "return:nil", "use:field.Class",
-      "use:field.Field", "use:field.Length", "use:field.Length"] := by decide
+    Gen.lookupShape.contains "fresh" = true ∧
+    Gen.lookupShape.all (fun s => s = "fresh" || s = "nil" || s.toList.take 5 = "read:".toList) = true := by decide
 
 example : FindFieldHeaderByName "nxm_nx_ct_state" true = some { Class := 1, Field := 105, HasMask := true, Length := 8 } := by decide +kernel
 
